@@ -609,3 +609,48 @@ def rule_utf8_unchecked(ctx, R):
             if not own:
                 R.finding(fn, "unchecked-utf8:input-bytes", "%s declares bytes that arrive from outside to be UTF-8 without checking them (line %d): a later slice or search of the `str` at a non-boundary byte index panics -- the process exits for every client" % (fn.split("::")[-1], b.bb_line(i)), b.loc(i))
     R.inst("-", "unchecked-utf8", {"sites_on_the_command_path": n})
+
+
+# ---- R-RETRY-BUDGET -------------------------------------------------------------------------------
+def rule_retry_budget(ctx, R):
+    """a loop on the command thread that waits (thread::sleep) between retries is bounded by an
+    attempt budget: the counter the loop's exit test compares with a constant is only counted up
+    inside the loop, never set back.  Restoring the budget whenever the peer takes a few bytes
+    lets one slow reader keep the single command thread in that loop for as long as it likes."""
+    cp = shared.command_path(ctx)
+    n = 0
+    for fn in sorted(cp):
+        b = ctx.prog.bodies.get(fn)
+        if b is None or "::tests::" in fn:
+            continue
+        lps = cfg.loops(b)
+        for h, body in lps.items():
+            if not any(b.term(x)["k"] == "call" and re.search(r"std::thread::sleep$", b.term(x)["f"] or "") for x in body):
+                continue
+            # counters compared with a constant inside the loop
+            counters = set()
+            for x in body:
+                for st in b.stmts(x):
+                    if st["k"] == "=" and st["r"]["k"] == "bin" and st["r"]["op"] in ("Lt", "Le", "Gt", "Ge"):
+                        a, c = st["r"]["a"], st["r"]["b"]
+                        for v, k in ((a, c), (c, a)):
+                            if not op_is_const(v) and op_is_const(k) and re.match(r"^(u|i)(8|16|32|64|size)$", b.locals[op_place(v)["l"]]):
+                                # follow one copy back to the named counter
+                                l = op_place(v)["l"]
+                                for kind, db, d in prov.build_defs(b).get(l, ()):
+                                    if kind == "stmt" and d["r"]["k"] == "use" and not op_is_const(d["r"]["o"]) and not op_place(d["r"]["o"])["p"]:
+                                        counters.add(op_place(d["r"]["o"])["l"])
+                                counters.add(l)
+            counted = {l for l in counters for x in body for st in b.stmts(x)
+                       if st["k"] == "=" and st["l"]["l"] == l and not st["l"]["p"] and st["r"]["k"] == "use" and not op_is_const(st["r"]["o"]) and op_place(st["r"]["o"])["p"]}
+            if not counted:
+                continue
+            n += 1
+            resets = [(x, st) for x in sorted(body) for st in b.stmts(x)
+                      if st["k"] == "=" and st["l"]["l"] in counted and not st["l"]["p"] and st["r"]["k"] == "use" and op_is_const(st["r"]["o"])]
+            R.inst(fn, "retry-loop@%d" % b.bb_line(h), {"function": fn, "loop_at": b.loc(h), "budget_counters": len(counted), "resets_inside_the_loop": len(resets)})
+            if resets:
+                x, st = resets[0]
+                R.finding(fn, "retry-budget:reset-inside-the-loop",
+                          "%s sets its attempt counter back (line %d) inside the loop that sleeps between retries: the loop is no longer bounded by the budget -- a peer that takes a few bytes at a time keeps the single command thread here and nobody else is answered" % (fn.split("::")[-1], b.bb_line(x)), b.loc(x))
+    R.floor("sleeping_retry_loops", n)
